@@ -35,7 +35,75 @@ func verifDynKey(v cty.Value, d hcl.Diagnostics) string {
 	return s + " ## " + strings.Join(ds, " ;; ")
 }
 
+// verifNestedExpansion: a nested pair of dynamic blocks must decode to the same value as the blocks
+// written out by hand, for every choice of iterator names (default, explicit, and the same
+// explicit name at both levels, where the inner iterator shadows the outer one).
+func verifNestedExpansion() (int, []string) {
+	spec := &hcldec.BlockListSpec{
+		TypeName: "b",
+		Nested: hcldec.ObjectSpec{
+			"v": &hcldec.AttrSpec{Name: "v", Type: cty.String},
+			"c": &hcldec.BlockListSpec{TypeName: "c", Nested: hcldec.ObjectSpec{
+				"w": &hcldec.AttrSpec{Name: "w", Type: cty.String},
+				"o": &hcldec.AttrSpec{Name: "o", Type: cty.String},
+			}},
+		},
+	}
+	outer := []string{"a", "b"}
+	inner := []string{"x", "y"}
+	var fails []string
+	n := 0
+	for _, oi := range []string{"", "it", "each"} {
+		for _, ii := range []string{"", "jt", "each", "b"} {
+			on, in := "b", "c"
+			oline, iline := "", ""
+			if oi != "" {
+				on, oline = oi, "iterator = "+oi
+			}
+			if ii != "" {
+				in, iline = ii, "iterator = "+ii
+			}
+			// the inner content refers to the inner iterator, and to the outer one when it is still visible
+			oref := "\"hidden\""
+			if on != in {
+				oref = on + ".value"
+			}
+			src := fmt.Sprintf("dynamic \"b\" {\n for_each = [\"a\", \"b\"]\n %s\n content {\n  v = %s.value\n  dynamic \"c\" {\n   for_each = [\"x\", \"y\"]\n   %s\n   content {\n    w = %s.value\n    o = %s\n   }\n  }\n }\n}\n", oline, on, iline, in, oref)
+			var want strings.Builder
+			for _, o := range outer {
+				want.WriteString(fmt.Sprintf("b {\n v = %q\n", o))
+				for _, i := range inner {
+					ov := o
+					if on == in {
+						ov = "hidden"
+					}
+					want.WriteString(fmt.Sprintf(" c {\n  w = %q\n  o = %q\n }\n", i, ov))
+				}
+				want.WriteString("}\n")
+			}
+			f1, d1 := hclsyntax.ParseConfig([]byte(src), "t.hcl", hcl.InitialPos)
+			f2, d2 := hclsyntax.ParseConfig([]byte(want.String()), "w.hcl", hcl.InitialPos)
+			if d1.HasErrors() || d2.HasErrors() {
+				continue
+			}
+			n++
+			ctx := &hcl.EvalContext{}
+			v1, e1 := hcldec.Decode(Expand(f1.Body, ctx), spec, ctx)
+			v2, e2 := hcldec.Decode(f2.Body, spec, ctx)
+			if e1.HasErrors() != e2.HasErrors() || !v1.RawEquals(v2) {
+				fails = append(fails, fmt.Sprintf("input=%q the expansion decodes to %#v, the written-out blocks to %#v", src, v1, v2))
+			}
+		}
+	}
+	return n, fails
+}
+
 func TestVerifReplayDynVariables(t *testing.T) {
+	nn, nfails := verifNestedExpansion()
+	for _, m := range nfails {
+		t.Errorf("REPLAY-FAIL func=dynblock.(exprWrap).Value %s", m)
+	}
+	fmt.Printf("STANDIN inputs=%d bound=\"nested dynamic blocks with every combination of default / explicit / shadowing iterator names against the written-out blocks\"\n", nn)
 	spec := &hcldec.BlockListSpec{
 		TypeName: "b",
 		Nested: hcldec.ObjectSpec{
